@@ -24,7 +24,12 @@ def microspecs(ck, n, start=1):
     rng = random.Random(9100 * ck.seed + start)
     out = []
     for i in range(n):
-        out.append(mc.gen_microspec(rng, start + i, n_mem=2))
+        w = mc.gen_microspec(rng, start + i, n_mem=2)
+        if ck.tier == "quick" and w["kind"] == "matmul" and i % 2:
+            # keep the quick tier's enumerations small: one (4,2,2)-sized matmul at most every other world
+            for r in w["bound"]:
+                w["bound"][r] = 2
+        out.append(w)
     return out
 
 
@@ -52,7 +57,7 @@ def run(ck: Check):
                "(world, metric).")
     ck.trusted += ["real evaluate_mapping as pricing oracle (the property's own words; its correctness is C05/C06)",
                    "dense rank transform of objective values before TLC compares them"]
-    worlds = microspecs(ck, 4 if not thorough else 24)
+    worlds = microspecs(ck, 3 if not thorough else 24)
     priced, results = collect(ck, worlds, [(m,) for m in mc.METRICS])
     byid = {w["id"]: w for w in worlds}
     cases, meta = [], {}
